@@ -34,6 +34,7 @@ var (
 	logLfsSearchArgs = []string{
 		"--no-ext-diff",
 		"--no-textconv",
+		"--root",        // a root commit's files are additions too, whatever log.showRoot says
 		"--text",          // pointers are text even where attributes say "-diff" or "binary"
 		"--src-prefix=a/", // the parser relies on the default prefixes, whatever
 		"--dst-prefix=b/", // diff.noprefix or diff.mnemonicPrefix say
